@@ -1374,6 +1374,24 @@ private:
           CRAB_LOG("inter-subsume", crab::outs() << "failed!\n";);
         }
       }
+      if (!call_context_already_seen && m_ctx.get_is_checking_phase()) {
+        // The checking phase does not analyze callsites. If no
+        // summary can be reused then the context in which this
+        // callsite was analyzed has been joined with other contexts.
+        // We do not know with which ones, so we take the postcondition
+        // of all the joined contexts that cover the callsite.
+        for (unsigned i = 0, e = call_contexts.size(); i < e; ++i) {
+          if (!call_contexts[i]->is_exact() &&
+              callee_entry <= call_contexts[i]->get_pre_summary()) {
+            if (!call_context_already_seen) {
+              callee_exit = call_contexts[i]->get_post_summary();
+              call_context_already_seen = true;
+            } else {
+              callee_exit |= call_contexts[i]->get_post_summary();
+            }
+          }
+        }
+      }
     } else {
       CRAB_LOG("inter-subsume", 
 	       crab::outs() << "[INTER] There is no call contexts stored.\n";);
